@@ -32,4 +32,34 @@ PROPS = {
         "trusted_base": ["ICA controller and capability keepers are oracles (section variables); ibc-go SerializeCosmosTx tied by correspondence"],
         "assumptions": ["block time + 1 minute representable as int64 nanoseconds"],
     },
+
 }
+
+LEDGER = {"module": H, "cmd": "ledger", "emit": "ledger", "cache": True, "timeout": 7200}
+LEDGER_TB = ["Ledger/*.v is a hand transcription of the keeper handlers, ValidateBasic methods and begin-block pruning (validated step by step by the ledger correspondence family on every run)",
+             "ORM and x/bank rules modelled in Ledger/Orm.v"]
+LEDGER_AS = ["every credit type has precision 6 (enforced by CreditType.Validate for genesis and AddCreditType)",
+             "addresses are known accounts (users, gov, module accounts); timestamps within protobuf range; infinite gas meter"]
+
+PROPS.update({
+    "C08": {
+        "prop_file": "Properties/C08.v",
+        "coq_targets": ["Properties/C08.vo", "Cases/LedgerRun.vo"],
+        "families": [LEDGER],
+        "trusted_base": LEDGER_TB, "assumptions": LEDGER_AS,
+    },
+    "C10": {
+        "prop_file": "Properties/C10.v",
+        "coq_targets": ["Properties/C10.vo", "Cases/LedgerRun.vo"],
+        "families": [LEDGER],
+        "trusted_base": LEDGER_TB + ["runtime determinism (IAVL hashes, gas, events, map order, restarts) is checked by replicated executions, which are tests, not proofs"],
+        "assumptions": LEDGER_AS,
+        "explanation": "partial: theorems cover the logical transition function, failed-tx no-trace and restart-at-block-boundary invariance of the model; app hashes/gas/events/responses are compared across 3+ executions with restart subsets by the determinism family",
+    },
+    "C18": {
+        "prop_file": "Properties/C18.v",
+        "coq_targets": ["Properties/C18.vo", "Cases/LedgerRun.vo"],
+        "families": [LEDGER],
+        "trusted_base": LEDGER_TB, "assumptions": LEDGER_AS,
+    },
+})
